@@ -7,7 +7,12 @@ also contains (DESIGN.md C12):
       = M(r)^T (s e1) (norm s) [non-zero declination/inclination: not decided]; measure_gyro = omega + bias;
   L2  the truth is a fixed point of the estimator's corrections: with the estimator at the true attitude and the
       noise-free simulated measurement, the accelerometer innovation is exactly zero and the reading is accepted
-      (error_code 0) [magnetometer fixed point: not decided]."""
+      (error_code 0) [magnetometer fixed point: not decided];
+  L3  an accepted correction applies the gain of sqrt_correct to every state component: x+ = exp(K r) * x on
+      SO3Mrp x R^3 (QF_UF congruence; a component the corrections never touch cannot converge - finding F20);
+  L4  rate settings: the estimator node never skips a due correction (an IMU sample with dt > 0 arriving at least
+      dt_min_accel - 1 ms after the previous accelerometer correction is used; same for the magnetometer) - CrossHair on
+      the real node, <= 3 callbacks with arbitrary times."""
 from __future__ import annotations
 from fractions import Fraction
 import casadi as ca
@@ -183,19 +188,290 @@ class TruthFixedPoint(Harness):
         return [Claim("innovation", outs[0][0][0], 0)]
 
 
+class SensorMagCut(Harness):
+    """measure_mag for arbitrary declination and inclination: y = M(r)^T Rz(decl) Ry(-incl) (s e1), norm s.
+    Modular: the two SO3Dcm.exp calls are cut - the harness checks that their arguments are decl*e3 and -incl*e2 and binds
+    the results to the rotations about those axes (C02's theorem M(exp x) = expm(x^), re-discharged for SO3Dcm)."""
+    timeout_ms = 60000
+    max_cells = 16
+    name = "C12:sensor:mag:any_decl_incl"
+
+    def build(self):
+        import cyecca.lie.group_so3 as g
+        import cyecca.estimate.attitude.algorithms.sim as sm
+        from ..stubs import FunctionCapture
+        rec = {}
+        E = [ca.SX.sym("cutE0", 3, 3), ca.SX.sym("cutE1", 3, 3)]
+        o_exp = g.SO3DcmLieGroup.exp
+
+        def exp(self_, arg):
+            # the call is identified by the angle its argument depends on, not by call order
+            dep = {v.name() for v in ca.symvar(ca.SX(arg.param))}
+            k = 0 if dep == {"mag_decl"} else (1 if dep == {"mag_incl"} else None)
+            if k is None or k in rec:
+                raise HarnessError(f"measure_mag: unexpected SO3Dcm.exp call (argument depends on {sorted(dep)})")
+            rec[k] = ca.SX(arg.param)
+            return g.SO3Dcm.from_Matrix(E[k])
+        g.SO3DcmLieGroup.exp = exp
+        try:
+            with FunctionCapture() as fc:
+                sm.measure_mag()
+        finally:
+            g.SO3DcmLieGroup.exp = o_exp
+        if len(rec) != 2:
+            raise HarnessError(f"measure_mag: {len(rec)} SO3Dcm.exp calls (expected the declination and the inclination rotation)")
+        ins, outs, names = fc.last("measure_mag")
+        if (names or [])[:4] != ["x", "mag_str", "mag_decl", "mag_incl"]:
+            raise HarnessError(f"measure_mag signature changed: {names}")
+        x, s_, d, i = ins[:4]
+        y = ca.substitute(outs[0], ca.vertcat(*ins[4:]), ca.SX.zeros(sum(v.numel() for v in ins[4:]), 1))  # noise off
+        return ca.Function("mag_obs", [x, s_, d, i, ca.vec(E[0]), ca.vec(E[1])], [y, rec[0], rec[1]])
+
+    def build_real(self):
+        e = sim_eqs()
+        x = ca.SX.sym("x", 6)
+        s, d, i = ca.SX.sym("s"), ca.SX.sym("d"), ca.SX.sym("i")
+        e0, e1 = ca.SX.sym("e0", 9), ca.SX.sym("e1", 9)
+        z3_ = ca.SX.zeros(3)
+        return ca.Function("mag_real", [x, s, d, i, e0, e1],
+                           [e["measure_mag"](x, s, d, i, 0, z3_), ca.vertcat(0, 0, d), ca.vertcat(0, -i, 0)])
+
+    def make_ctx(self):
+        from ..oracles import weier
+        ctx = Ctx()
+        r = [Val.var(f"r{i}") for i in range(3)]
+        b = [Val.var(f"b{i}") for i in range(3)]
+        s = Val.var("s")
+        d, i = Val.var("decl"), Val.var("incl")
+        sd, cd = weier(Val.var("decl_u"))
+        si, ci = weier(Val.var("incl_u"))
+        E0 = rotz(sd, cd)
+        E1 = roty(-si, ci)  # rotation by -incl about e2
+        cm = lambda M: [M[a][b_] if isinstance(M[a][b_], Val) else Val(M[a][b_]) for b_ in range(3) for a in range(3)]
+        ctx.aux = dict(R=mrp_R(r), sd=sd, cd=cd, si=si, ci=ci, d=d, i=i, s=s)
+        return ctx, [r + b, [s], [d], [i], cm(E0), cm(E1)]
+
+    def env_fix(self, env):
+        if "decl_u" in env:
+            env["decl"] = 2 * mp.atan(env["decl_u"])
+        if "incl_u" in env:
+            env["incl"] = 2 * mp.atan(env["incl_u"])
+
+    def claims(self, outs, ins, aux):
+        y = [outs[0][k][0] for k in range(3)]
+        v0 = [outs[1][k][0] for k in range(3)]
+        v1 = [outs[2][k][0] for k in range(3)]
+        s = aux["s"]
+        Bn = [aux["cd"] * aux["ci"] * s, aux["sd"] * aux["ci"] * s, aux["si"] * s]  # Rz(decl) Ry(-incl) (s e1)
+        ref = V.mat_vec(V.mat_T(aux["R"]), Bn)
+        cl = [Claim("norm", V.dot(y, y), s * s)]
+        cl += [Claim(f"value[{k}]", y[k], ref[k]) for k in range(3)]
+        want0 = [Val(0), Val(0), aux["d"]]
+        want1 = [Val(0), -aux["i"], Val(0)]
+        cl += [Claim(f"declination_rotation_argument[{k}]", v0[k], want0[k]) for k in range(3)]
+        cl += [Claim(f"inclination_rotation_argument[{k}]", v1[k], want1[k]) for k in range(3)]
+        return cl
+
+
+class RestoringDirection(Harness):
+    """L5: the accelerometer innovation never points away from the measured gravity direction: with y_n = C_nb (-y_b)
+    (measurement rotated by the ESTIMATED attitude; the code's own vector, observed at its cross product and proved equal
+    to M(r)(-y)) the innovation is a non-negative multiple of y_n x e3, for every estimator attitude and every
+    measurement - also for tilt errors beyond 90 degrees (estimator started at zero)."""
+    timeout_ms = 60000
+    max_cells = 64
+    name = "C12:accel_innovation_restoring"
+
+    def build(self):
+        import casadi
+        import cyecca.estimate.attitude.algorithms.mrp as m
+        rec = []
+        o_cross = casadi.cross
+
+        def cross(a, b, *k):
+            rec.append((ca.SX(a), ca.SX(b)))
+            return o_cross(a, b, *k)
+        casadi.cross = cross
+        try:
+            f = m.correct_accel()
+        finally:
+            casadi.cross = o_cross
+        if [f.name_in(i) for i in range(f.n_in())] != ["x", "W", "y_b", "g", "omega_b", "std_accel", "std_accel_omega", "beta_accel_c"]:
+            raise HarnessError("correct_accel signature changed")
+        cand = [a for (a, b_) in rec if b_.is_constant() and [float(v) for v in ca.DM(b_).full().ravel()] == [0.0, 0.0, 1.0]]
+        if len(cand) != 1:
+            raise HarnessError(f"correct_accel: expected one cross product with the vertical axis, found {len(cand)}")
+        yn = cand[0]
+        sv = {v.name(): v for v in ca.symvar(yn)}
+        try:
+            y = ca.vertcat(*[sv[f"y_b_{i}"] for i in range(3)])
+        except KeyError as e:
+            raise HarnessError(f"correct_accel: measurement symbol {e} not found in the rotated measurement")
+        o = f(m.x, m.W, y, m.g, ca.SX.zeros(3), 0.035, 0, 9.2)
+        return ca.Function("restoring", [m.x, y, m.g, m.W], [o[3], yn])
+
+    def make_ctx(self):
+        ctx = Ctx()
+        ctx.light_feasibility = True
+        ctx.sign_facts = True
+        r = [Val.var(f"r{i}") for i in range(3)]
+        b = [Val.var(f"b{i}") for i in range(3)]
+        y = [Val.var(f"y{i}") for i in range(3)]
+        g = Val.var("g")
+        ctx.assume(V.gt(V.dot(y, y), Val(0)))
+        yn = V.mat_vec(mrp_R(r), [-y[0], -y[1], -y[2]])
+        ctx.aux = dict(yn=yn)
+        return ctx, [r + b, y, [g], [Val.var(f"W{i}") for i in range(21)]]
+
+    def claims(self, outs, ins, aux):
+        yn = [outs[1][k][0] for k in range(3)]
+        r0, r1 = outs[0][0][0], outs[0][1][0]
+        # y_n x e3 = (y_n[1], -y_n[0], 0)
+        cl = [Claim("innovation_x_along_cross", r0 * yn[1], 0, "ge"),
+              Claim("innovation_y_along_cross", r1 * (-yn[0]), 0, "ge"),
+              Claim("innovation_parallel_to_cross", r0 * (-yn[0]) - r1 * yn[1], 0)]
+        # the direction is the ratio of the (scale-free) components of the measured gravity in the estimated frame
+        cl += [Claim(f"rotated_measurement_direction[{k}]", yn[k] * aux["yn"][2], yn[2] * aux["yn"][k]) for k in range(2)]
+        cl.append(Claim("rotated_measurement_same_side", yn[0] * aux["yn"][0] + yn[1] * aux["yn"][1] + yn[2] * aux["yn"][2], 0, "gt"))
+        return cl
+
+
+def job_gain_applied(which):
+    """L3: an accepted accelerometer / magnetometer correction applies the gain K of sqrt_correct to EVERY component of
+    the state:  x+ = exp(K r) * x  on SO3Mrp x R^3 (QF_UF congruence of the real function's output with the group update
+    built from the recorded gain and the function's own innovation output).  Necessary for 'all three gyro-bias
+    components approach the true bias': a component that the correction never touches keeps its initial error."""
+    import time
+    import random
+    import cyecca.util as util
+    from ..ir import IR
+    from ..uf import UFDomain, uf_outputs, uf_equiv
+    from ..harness import _casadi_eval, _same
+    t0 = time.time()
+    name = f"C12:correction_applies_gain:{which}"
+    stats = dict(name=name, cells=1, queries=0, solver_time=0.0, functions=[], resolutions={})
+    rec = []
+    orig = util.sqrt_correct
+
+    def spy(*a, **k):
+        r = orig(*a, **k)
+        rec.append(r)
+        return r
+    util.sqrt_correct = spy
+    try:
+        import cyecca.estimate.attitude.algorithms.mrp as m
+        f = m.correct_accel() if which == "accel" else m.correct_mag()
+    except Exception as e:
+        import traceback
+        return dict(records=[dict(label="build", status="crash", harness=name, detail=f"{type(e).__name__}: {e}",
+                                  trace=traceback.format_exc()[-1500:])], stats=stats)
+    finally:
+        util.sqrt_correct = orig
+    recs = []
+    if len(rec) != 1:
+        return dict(records=[dict(label="sqrt_correct_called_once", status="refuted", harness=name,
+                                  replay=dict(confirmed=True, note=f"sqrt_correct called {len(rec)} times"))], stats=stats)
+    K = rec[0][1]
+    sym = {"x": m.x, "W": m.W, "g": m.g, "omega_b": m.omega_m, "std_accel": m.std_accel, "std_accel_omega": m.std_accel_omega,
+           "beta_accel_c": m.beta_accel_c, "decl": m.mag_decl, "std_mag": m.std_mag, "beta_mag_c": m.beta_mag_c}
+    args = []
+    for i in range(f.n_in()):
+        n = f.name_in(i)
+        if n == "y_b":
+            args.append(ca.SX.sym("y_b", 3))
+        elif n in sym:
+            args.append(sym[n])
+        else:
+            return dict(records=[dict(label="build", status="crash", harness=name, detail=f"unknown input {n}")], stats=stats)
+    known = {v.name() for a in args for v in ca.symvar(a)}
+    if not {v.name() for v in ca.symvar(K)} <= known:
+        return dict(records=[dict(label="build", status="crash", harness=name, detail="gain depends on symbols that are not inputs")],
+                    stats=stats)
+    o = f(*args)
+    names = [f.name_out(i) for i in range(f.n_out())]
+    x_out, r_out, code = o[0], o[names.index("r_" + which)], o[names.index("error_code")]
+    upd = m.G.product(m.G.exp(m.G.algebra.elem(ca.mtimes(K, r_out))), m.G.elem(m.x)).param
+    want = ca.if_else(code == 0, upd, m.x)
+    gfun = ca.Function("gain_applied", args, [x_out, want, code])
+    ir = IR(gfun)
+    stats["functions"].append(dict(function=f.name(), instructions=ir.n_instr))
+    D = UFDomain()
+    outs = uf_outputs(ir, D)
+    for (k, r), lab in zip(uf_equiv(outs[0], outs[1], D), [f"x+=exp(K r)*x[{i}]" for i in range(6)]):
+        st = {"unsat": "proved", "sat": "refuted", "unknown": "unknown"}[r]
+        rc = dict(label=lab, harness=name, cell="uf", t=0.0, status=st)
+        if st == "refuted":
+            # replay: a concrete accepted correction on which the real output differs from the group update
+            rng = random.Random(k)
+            diff = None
+            for _ in range(300):
+                pt = []
+                for i in range(ir.n_in):
+                    n = f.name_in(i)
+                    if n == "x":
+                        pt.append([rng.uniform(-0.3, 0.3) for _ in range(6)])
+                    elif n == "W":
+                        Wm = [[(0.05 + rng.uniform(0, 0.02) if a == b else rng.uniform(-0.005, 0.005)) for b in range(6)] for a in range(6)]
+                        pt.append([Wm[a][b] for b in range(6) for a in range(b, 6)])
+                    elif n == "y_b":
+                        v = [rng.uniform(-1, 1), rng.uniform(-1, 1), rng.uniform(-1, 1) - 9.0] if which == "accel" else \
+                            [rng.uniform(0.3, 1), rng.uniform(-0.5, 0.5), rng.uniform(-0.3, 0.3)]
+                        if which == "accel":
+                            nv = sum(t * t for t in v) ** 0.5
+                            v = [t * 9.8 / nv for t in v]
+                        pt.append(v)
+                    elif n == "g":
+                        pt.append([9.8])
+                    elif n == "omega_b":
+                        pt.append([rng.uniform(-1, 1) for _ in range(3)])
+                    elif n in ("std_accel", "std_mag"):
+                        pt.append([0.035 if which == "accel" else 0.0025])
+                    elif n == "std_accel_omega":
+                        pt.append([0.0])
+                    elif n in ("beta_accel_c", "beta_mag_c"):
+                        pt.append([9.2])
+                    else:
+                        pt.append([rng.uniform(-0.3, 0.3) for _ in range(ir.in_nnz[i])])
+                ov = _casadi_eval(gfun, pt)
+                if ov[2][0][0] == 0 and not _same(ov[0][k][0], ov[1][k][0], 1e-12):
+                    diff = dict(inputs=pt, real_output=ov[0][k][0], group_update=ov[1][k][0], error_code=ov[2][0][0],
+                                input_names=[f.name_in(i) for i in range(f.n_in())])
+                    break
+            rc["replay"] = dict(confirmed=diff is not None, **(diff or {"reason": "not congruent but numerically equal"}))
+            if diff is None:
+                rc["status"] = "spurious"
+        recs.append(rc)
+        stats["queries"] += 1
+    stats["wall"] = time.time() - t0
+    return dict(records=recs, stats=stats)
+
+
 def all_harnesses(tier):
     # the magnetometer model with non-zero declination/inclination and the magnetometer fixed point need the solver to
     # simplify C_nb C_nb^T on the MRP chart inside an atan2 resolution; those obligations came back with models that
     # do not replay (inconclusive) and are not part of the claim
-    return [SensorModels("accel"), SensorModels("gyro"), SensorModels("mag", ("decl", "incl")), TruthFixedPoint("accel")]
+    return [SensorModels("accel"), SensorModels("gyro"), SensorModels("mag", ("decl", "incl")), TruthFixedPoint("accel"),
+            SensorMagCut(), RestoringDirection()]
+
+
+def lemma_harnesses():
+    """M(exp x) = expm(x^) for SO3Dcm (owned by C02): the cut of measure_mag rests on it"""
+    from . import C02
+    return [C02.ExpStub("SO3Dcm"), C02.ExpZero("SO3Dcm")]
 
 
 def get_harness(name, tier="quick"):
-    for h in all_harnesses(tier):
+    for h in all_harnesses(tier) + lemma_harnesses():
         if h.name == name:
             return h
     raise KeyError(name)
 
 
 def jobs(tier, seed):
-    return harness_jobs(__name__, all_harnesses(tier), seed, tier)
+    js = harness_jobs(__name__, all_harnesses(tier) + lemma_harnesses(), seed, tier)
+    js.append(("C12:correction_applies_gain:accel", job_gain_applied, ("accel",)))
+    js.append(("C12:correction_applies_gain:mag", job_gain_applied, ("mag",)))
+    # rate settings: a due correction is never skipped by the estimator node (CrossHair on the real node, <= 3 callbacks)
+    from . import C20
+    js.append(("C12:estimator_due", C20.job, ("estimator_due", tier, seed, "C12")))
+    return js
